@@ -510,53 +510,76 @@ Qed.
 (* ------------------------------------------------------------------ *)
 (* auth.Client.Do on top                                                *)
 
-Lemma auth_do_attempts p cn bd sc :
-  let a := auth_do p cn bd sc in
+Lemma auth_do_attempts warm p cn bd sc :
+  let a := auth_do warm p cn bd sc in
   1 <= Z.of_nat (length (attempts (a_first a))) <= maxr p + 1 /\
-  Z.of_nat (length (attempts (a_second a))) <= maxr p + 1.
+  Z.of_nat (length (attempts (a_second a))) <= maxr p + 1 /\
+  Z.of_nat (length (attempts (a_third a))) <= maxr p + 1.
 Proof.
   unfold auth_do.
   pose proof (round_trip_attempts p cn bd (init_state bd) sc 0) as H1. cbv zeta in H1.
   set (o1 := round_trip p cn bd (init_state bd) sc 0) in *.
   assert (Hm : 0 <= maxr p + 1) by (unfold maxr; lia).
-  destruct (challenged (o_res o1)); [|cbn [a_first a_second attempts length]; split; [exact H1|exact Hm]].
-  destruct (rewind bd (o_st o1)) as [st2| |]; cbn [a_first a_second attempts length];
-    try (split; [exact H1|exact Hm]).
-  split; [exact H1|].
-  pose proof (round_trip_attempts p cn bd st2 (o_script o1) (o_time o1)) as H2. cbv zeta in H2. lia.
+  destruct (challenged (o_res o1));
+    [|cbn [a_first a_second a_third attempts length]; repeat split; try apply H1; exact Hm].
+  destruct (rewind bd (o_st o1)) as [st2| |]; cbn [a_first a_second a_third attempts length];
+    try (repeat split; try apply H1; exact Hm).
+  pose proof (round_trip_attempts p cn bd st2 (o_script o1) (o_time o1)) as H2. cbv zeta in H2.
+  set (o2 := round_trip p cn bd st2 (o_script o1) (o_time o1)) in *.
+  destruct (warm && bearer_challenged (o_res o1) && unauthorized (o_res o2));
+    [|cbn [a_first a_second a_third attempts length]; repeat split; try apply H1; try apply H2; exact Hm].
+  destruct (rewind bd (o_st o2)) as [st3| |]; cbn [a_first a_second a_third attempts length];
+    try (repeat split; try apply H1; try apply H2; exact Hm).
+  pose proof (round_trip_attempts p cn bd st3 (o_script o2) (o_time o2)) as H3. cbv zeta in H3.
+  repeat split; try apply H1; try apply H2; apply H3.
 Qed.
 
-(* every request of both sends carries the body the script position asks for *)
-Lemma auth_do_bodies p cn bd sc :
+Lemma bodies_ok_app bd sc base l1 l2 :
+  bodies_ok bd sc base l1 -> bodies_ok bd sc (base + length l1) l2 -> bodies_ok bd sc base (l1 ++ l2).
+Proof.
+  intros B1 B2 i t got Hi.
+  destruct (Nat.lt_ge_cases i (length l1)) as [Hlt|Hge].
+  - rewrite nth_error_app1 in Hi by exact Hlt. exact (B1 i t got Hi).
+  - rewrite nth_error_app2 in Hi by exact Hge. apply B2 in Hi.
+    replace (base + i)%nat with (base + length l1 + (i - length l1))%nat by lia. exact Hi.
+Qed.
+
+(* every request of every send carries the body the script position asks for *)
+Lemma auth_do_bodies warm p cn bd sc :
   wf_body bd ->
-  let a := auth_do p cn bd sc in
-  bodies_ok bd sc 0 (attempts (a_first a) ++ attempts (a_second a)).
+  let a := auth_do warm p cn bd sc in
+  bodies_ok bd sc 0 (attempts (a_first a) ++ attempts (a_second a) ++ attempts (a_third a)).
 Proof.
   intro Hwf. unfold auth_do.
   destruct (round_trip_bodies_gen p cn bd sc 0%nat (init_state bd) 0 Hwf eq_refl) as (B1 & S1 & N1).
   cbn [skipn] in *.
   set (o1 := round_trip p cn bd (init_state bd) sc 0) in *.
-  destruct (challenged (o_res o1)); [|cbn [a_first a_second attempts]; rewrite app_nil_r; exact B1].
-  destruct (rewind bd (o_st o1)) as [st2| |] eqn:Hrw; cbn [a_first a_second attempts];
-    try (rewrite app_nil_r; exact B1).
+  destruct (challenged (o_res o1)); [|cbn [a_first a_second a_third attempts]; rewrite !app_nil_r; exact B1].
+  destruct (rewind bd (o_st o1)) as [st2| |] eqn:Hrw; cbn [a_first a_second a_third attempts];
+    try (rewrite !app_nil_r; exact B1).
   assert (Hf : s_rest st2 = bdata bd) by (eapply rewind_fresh; eauto).
   cbn [Nat.add] in S1. rewrite S1.
   destruct (round_trip_bodies_gen p cn bd sc (length (attempts (o_trace o1))) st2 (o_time o1) Hwf Hf)
-    as (B2 & _ & _).
-  intros i t got Hi.
-  destruct (Nat.lt_ge_cases i (length (attempts (o_trace o1)))) as [Hlt|Hge].
-  - rewrite nth_error_app1 in Hi by exact Hlt. exact (B1 i t got Hi).
-  - rewrite nth_error_app2 in Hi by exact Hge. apply B2 in Hi.
-    replace (0 + i)%nat with (length (attempts (o_trace o1)) + (i - length (attempts (o_trace o1))))%nat by lia.
-    exact Hi.
+    as (B2 & S2 & N2).
+  set (o2 := round_trip p cn bd st2 (skipn (length (attempts (o_trace o1))) sc) (o_time o1)) in *.
+  destruct (warm && bearer_challenged (o_res o1) && unauthorized (o_res o2)).
+  2:{ cbn [a_first a_second a_third attempts]. rewrite app_nil_r. apply bodies_ok_app; assumption. }
+  destruct (rewind bd (o_st o2)) as [st3| |] eqn:Hrw2; cbn [a_first a_second a_third attempts];
+    try (rewrite app_nil_r; apply bodies_ok_app; assumption).
+  assert (Hf3 : s_rest st3 = bdata bd) by (eapply rewind_fresh; eauto).
+  rewrite S2.
+  destruct (round_trip_bodies_gen p cn bd sc
+              (length (attempts (o_trace o1)) + length (attempts (o_trace o2))) st3 (o_time o2) Hwf Hf3)
+    as (B3 & _ & _).
+  apply bodies_ok_app; [exact B1|]. apply bodies_ok_app; [exact B2|exact B3].
 Qed.
 
 (* a body that cannot be replayed reaches the registry once; a challenge then
    ends the call with the rewind error instead of a truncated re-send *)
-Lemma auth_do_not_replayable p cn bd sc :
+Lemma auth_do_not_replayable warm p cn bd sc :
   (forall st', rewind bd st' = RwNoGetBody \/ rewind bd st' = RwGetBodyErr) ->
-  let a := auth_do p cn bd sc in
-  length (attempts (a_first a)) = 1%nat /\ a_second a = [] /\
+  let a := auth_do warm p cn bd sc in
+  length (attempts (a_first a)) = 1%nat /\ a_second a = [] /\ a_third a = [] /\
   (a_res a = RNotRewindable \/ a_res a = RGetBodyFailed \/
    a_res a = o_res (round_trip p cn bd (init_state bd) sc 0)) /\
   (challenged (o_res (round_trip p cn bd (init_state bd) sc 0)) = true ->
@@ -567,9 +590,9 @@ Proof.
     as (bh & sc' & got & st1 & o & t1 & _ & _ & Htr & _).
   set (o1 := round_trip p cn bd (init_state bd) sc 0) in *.
   destruct (challenged (o_res o1)).
-  - destruct (Hrw (o_st o1)) as [E|E]; rewrite E; cbn [a_first a_second a_res];
+  - destruct (Hrw (o_st o1)) as [E|E]; rewrite E; cbn [a_first a_second a_third a_res rewind_error];
       rewrite Htr; cbn [attempts length]; repeat split; auto.
-  - cbn [a_first a_second a_res]. rewrite Htr. cbn [attempts length]. repeat split; auto.
+  - cbn [a_first a_second a_third a_res]. rewrite Htr. cbn [attempts length]. repeat split; auto.
     discriminate.
 Qed.
 
